@@ -1,7 +1,8 @@
 SPECIFICATION TSpec
-CONSTANTS Procs = {"p1", "p2"}
+CONSTANTS Users = {"u1", "u2"}
           N = 2
           None = None
+          ProcOf <- ProcTwo
           Bytes <- BytesSame
 CONSTRAINT Progress
 POSTCONDITION Post
